@@ -28,6 +28,7 @@ struct Transfer {
   uint8_t req_szx = 7;               // client-requested Block2 SZX (7 = none)
   // observed
   bool sent = false;
+  uint64_t submit_t = 0;
   std::vector<Piece> srv_pieces, cli_pieces;
   std::vector<uint8_t> cli_codes;
   int srv_complete = 0, cli_complete = 0;
@@ -223,6 +224,12 @@ int verif_case(const uint8_t *tape, size_t tlen, Info *info) {
   if (!session) { coap_free_context(cctx); coap_free_context(sctx); G = nullptr; return OUT_OF_DOMAIN; }
   coap_session_set_mtu(session, cli_mtu);
   coap_session_set_max_retransmit(session, 3);
+  // MAX_TRANSMIT_WAIT of this session = ACK_TIMEOUT * (2^(MAX_RETRANSMIT+1) - 1) * ACK_RANDOM_FACTOR
+  double max_transmit_wait_ms;
+  {
+    coap_fixed_point_t at = coap_session_get_ack_timeout(session), arf = coap_session_get_ack_random_factor(session);
+    max_transmit_wait_ms = (at.integer_part * 1000.0 + at.fractional_part) * ((1u << (coap_session_get_max_retransmit(session) + 1)) - 1) * (arf.integer_part + arf.fractional_part / 1000.0);
+  }
   Addr cli_local = Addr::from_coap(coap_session_get_addr_local(session));
 
   for (size_t i = 0; i < cs.tr.size(); i++) {
@@ -239,6 +246,7 @@ int verif_case(const uint8_t *tape, size_t tlen, Info *info) {
         tr.up_added++;  // ownership of the data passes to the library with the call: the release callback runs exactly once, also when the call fails
         if (!coap_add_data_large_request(session, pdu, tr.up.size(), tr.up.data(), release_cb, (void *)(intptr_t)(i << 1))) { coap_delete_pdu(pdu); w.note("large request refused"); cs.refused = true; return; }
       }
+      tr.submit_t = w.now;
       tr.sent = coap_send(session, pdu) != COAP_INVALID_MID;
       if (!tr.sent) w.note("send refused");
     });
@@ -261,7 +269,9 @@ int verif_case(const uint8_t *tape, size_t tlen, Info *info) {
       if (e.kind != EV_DELIVER || !simh::parse(e.data, &m)) continue;
       if (!ref::is_request(m.code)) {
         // a response to a follow-up block (it echoes a library token) delivered to the client twice (network duplicate)
-        if (m.code >= 64 && e.dst == cli_local && m.token.size() >= 6 && ++seen[e.data] > 1) final_block_deliveries++;
+        // (also the response to the first block, which echoes the application's token: its duplicate makes the client send follow-up
+        // blocks a second time, and the answers to those arrive after the state is gone)
+        if (m.code >= 64 && e.dst == cli_local && ++seen[e.data] > 1) final_block_deliveries++;
         continue;
       }
       const ref::Opt *b1 = simh::find_opt(m, 27);
@@ -405,6 +415,20 @@ int verif_case(const uint8_t *tape, size_t tlen, Info *info) {
         if (e.kind == EV_DROP && simh::parse(e.data, &m) && m.code >= 64 && e.dst == cli_local && m.token.size() >= 6) lost_lib_token_response = true;
       }
       if (lost_lib_token_response && exclude_known(info, "abandoned-block-transfer-reported-by-event-only")) { info->label("excluded:abandoned-event-only"); continue; }
+      // Known finding (structural key): the client counts the life of its upload state (lg_xmit, MAX_TRANSMIT_WAIT) from the moment the
+      // application submitted the request, not from the first transmission: when the first block waited behind another exchange (NSTART)
+      // and/or was retransmitted so long that the first response arrives later than that, the state is gone (COAP_EVENT_XMIT_BLOCK_FAIL
+      // only), the 2.31 is handed to the application as if it were the answer and the rest of the body is never sent
+      bool saw_continue = false;
+      for (uint8_t c : tr.cli_codes) if (c == 0x5f) saw_continue = true;
+      uint64_t first_resp = UINT64_MAX;
+      for (auto &e : w.trace) {
+        ref::Msg m;
+        if (e.kind == EV_DELIVER && e.dst == cli_local && simh::parse(e.data, &m) && m.code >= 64 && m.token == tr.token) { first_resp = e.t; break; }
+      }
+      uint64_t mtw = (uint64_t)max_transmit_wait_ms;
+      if (saw_continue && tr.kind != 1 && first_resp != UINT64_MAX && first_resp >= tr.submit_t + mtw &&
+          exclude_known(info, "upload-state-expired-before-first-response-arrived")) { info->label("excluded:upload-state-expired-before-first-response"); continue; }
     }
     if (con && quiet && !success && !error && !tr.nacks) { info->fail("%s: Confirmable transfer ended in silence (no success, no error response, no NACK)", id.c_str()); FAIL_IF(1); }
     size_t upbs = std::min<size_t>(1024, cli_mtu > 80 ? cli_mtu - 60 : 16), body = std::max(tr.up.size(), tr.down.size());
